@@ -2,6 +2,7 @@
 
 Mirror stream (oracle=False): the REAL idealNumThreads / getThreadDistance / align (harness op `psintervals`, which writes `numThreads_`
 directly, bypassing the hardware_concurrency clamp of setNumThreads) against the model `Pc.It.parIntervals` on
+  * (the two loop statements `start = align(start) + 1` / the guard are the harness' own copy of ParallelSieve.cpp:135-136, pinned by the text obligation)
   * thread counts on both sides of the proved bound 27 709 467 (PcProps/C18ClosedTop.lean `parallel_count_total_umax`), with `start` built so that the
     last task is 1..40 long (the wrap needs `(dist-1) % threadDist < 32`): the model and the real arithmetic must agree also where both wrap to
     `0:18446744073709551615`;
